@@ -6,6 +6,10 @@ props = [json.loads(l) for l in open(os.path.join(VERIF, 'properties.jsonl'))]
 ids = [p['id'] for p in props]
 
 CHECKS = {
+ 'C09': dict(engine='E1 enum', category='exploration', design_ref='3 C09',
+   technique='bounded-exhaustive enumeration of fault class x code x message x detail x raising method x protocol x transport; secret-token scan',
+   text='Fault, generated Fault subclasses with and without CODE, and the seven built-in error classes x six fault codes (dotted sub-codes, open vocabulary where the protocol allows) x ASCII / non-ASCII / markup / empty messages x none / flat / nested detail, raised from the first, (thorough: middle) and last method, under eight output protocols (thorough: dict family also with wrappers and positional form), through ServerBase, WsgiApplication and the loopback Spyne client for the XML family; ten non-Fault exception types each carrying a fresh secret in arguments, type name and a local variable. The protocol\'s reference fault decoder must give back code, message and detail; HTTP status must be the documented one; the generic Server / Internal Error fault must contain no secret, type name or traceback in status, headers or body.',
+   note='HttpRpc text faults carry no detail; SOAP 1.2 codes restricted to Client/Server first segments as the property says.'),
  'C10': dict(engine='E1 enum', category='exploration', design_ref='3 C10',
    technique='deviation-bounded exhaustive mutation of valid requests (all truncations, all single / double structural deviations, all <= 2-byte documents)',
    text='A corpus of valid requests (9 quick / 17 thorough atoms x positions field/array/argument) for every input protocol (XmlDocument, Soap11, Soap12 x validator None/soft/lxml; JSON, YAML, MessagePack, MessagePackRpc x None/soft; HttpRpc x None/soft) through ServerBase and through WsgiApplication. Deviation 1 exhaustively: every prefix truncation, every leaf text x a 21-item corruption alphabet, every element/key deleted, duplicated, renamed, re-qualified, nil-ed, re-kinded, nested deeper or shallower, empty and garbled documents; all 256 one-byte and 961 two-byte structural documents; thorough adds all pairs of structural mutations. Nothing may escape the pipeline or the WSGI callable; a fault must decode with the reference decoder, be in the Client family (4xx for non-SOAP, 500 for SOAP), and the function must not have run.',
